@@ -3,8 +3,8 @@ use crate::{labels_from_str, sentence_with};
 use std::borrow::Cow;
 use vaporetto::{CharacterBoundary as B, Sentence};
 
-const TEXT_ALPHA: [char; 9] = ['a', ' ', '/', '\\', 'あ', 'b', 'é', '𠀋', '\u{3000}'];
-const TAGS: [Option<&str>; 7] = [None, Some("x"), Some("/"), Some("a b"), Some("\\"), Some("名詞-普通"), None];
+const TEXT_ALPHA: [char; 12] = ['a', ' ', '/', '\\', 'あ', 'b', 'é', '𠀋', '\u{3000}', '\r', '\n', '\t'];
+const TAGS: [Option<&str>; 9] = [None, Some("x"), Some("/"), Some("a b"), Some("\\"), Some("名詞-普通"), None, Some("x\r"), Some("\n")];
 
 /// tags of every token of `s` with trailing None removed
 fn token_tags(s: &Sentence) -> Vec<Vec<Option<String>>> {
